@@ -17,13 +17,18 @@ pub struct Want {
     pub c03: bool,
     pub c04: bool,
     pub c05: bool,
+    /// also run the other applicable trait implementations and compare bit for bit (C01 only)
+    pub pairings: bool,
 }
 
 impl Want {
     pub fn for_prop(p: &str) -> Want {
         let mut w = Want::default();
         match p {
-            "C01" => w.c01 = true,
+            "C01" => {
+                w.c01 = true;
+                w.pairings = true;
+            }
             "C02" => w.c02 = true,
             "C03" => w.c03 = true,
             "C04" => w.c04 = true,
@@ -133,7 +138,7 @@ pub fn complex_pair(
                 cl.push(format!("C01 region-mismatch {}", op_name(op)));
             }
             for p in [Pairing::PM, Pairing::MP, Pairing::PP] {
-                if pairing_applicable(pa, pb, p) {
+                if want.pairings && pairing_applicable(pa, pb, p) {
                     let o2 = call_full(pa, pb, op, ft, p);
                     loc.transitions += 1;
                     loc.add("trait_pairing_calls", 1);
@@ -460,6 +465,7 @@ pub fn table_pair(
         c03: want.c03,
         c04: want.c04 && valid,
         c05: want.c05 && valid,
+        pairings: want.pairings,
     };
     let mut cl: Vec<String> = vec![];
     let mut results: Vec<Option<MP>> = vec![];
@@ -510,7 +516,7 @@ pub fn table_pair(
                 cl.push(format!("C01 region-mismatch {}", op_name(op)));
             }
             for p in [Pairing::PM, Pairing::MP, Pairing::PP] {
-                if pairing_applicable(&a.mp, &b.mp, p) {
+                if want.pairings && pairing_applicable(&a.mp, &b.mp, p) {
                     let o2 = call_full(&a.mp, &b.mp, op, ft, p);
                     loc.transitions += 1;
                     loc.add("trait_pairing_calls", 1);
